@@ -213,4 +213,8 @@ theorem C18_wiring :
     Sso.Generated.skel_auth_setHeaders =
       ["func{", "range{", "call:Header", "call:Set", "}", "call:ServeHTTP", "}", "call:HandlerFunc", "return"] := by decide
 
+/-- Tie (T1): `makeCookie`. -/
+theorem C18_skeleton_makeCookie : Sso.Generated.skel_store_makeCookie =
+    ["call:NewLogEntry", "call:SplitHostPort", "if{", "}", "if{", "call:HasSuffix", "if{", "call:WithRequestHost", "call:WithCookieDomain", "call:Warn", "}", "}", "call:Add", "return"] := by decide
+
 end Sso.Harden
